@@ -50,10 +50,12 @@ const (
 	WZero
 	WForever
 	WHugeVA
+	WSoon       // becomes valid in ~25 s: premature for the whole history
+	WJustLapsed // expired ~12 s ago
 	WJustExpired
 )
 
-var WName = map[int]string{WPast: "past", WCurrent: "current", WFuture: "future", WLapsing: "lapsing", WZero: "zero", WForever: "forever", WHugeVA: "va>maxint64", WJustExpired: "expired-1m"}
+var WName = map[int]string{WPast: "past", WCurrent: "current", WFuture: "future", WLapsing: "lapsing", WZero: "zero", WForever: "forever", WHugeVA: "va>maxint64", WJustExpired: "expired-1m", WSoon: "valid-in-25s", WJustLapsed: "expired-12s"}
 
 // CertMat is a certificate of the material set.
 type CertMat struct {
@@ -271,6 +273,10 @@ func NewMaterial(r *rand.Rand, cfg Config) *Material {
 			va, vb = 0, 0
 		case WForever:
 			va, vb = 0, ssh.CertTimeInfinity
+		case WSoon:
+			va, vb = uint64(now+25), uint64(now+7200)
+		case WJustLapsed:
+			va, vb = uint64(now-7200), uint64(now-12)
 		case WHugeVA:
 			va, vb = uint64(math.MaxInt64)+uint64(1+r.Intn(1000)), ssh.CertTimeInfinity
 		}
